@@ -345,7 +345,7 @@ func (c *Chain[I, O]) AppendBranch(b *ChainBranch) *Chain[I, O] { // nolint: byt
 	prefix := c.nextNodeKey()
 	key2NodeKey := make(map[string]string, len(b.key2BranchNode))
 
-	for key := range b.key2BranchNode {
+	for _, key := range sortedKeys(b.key2BranchNode) {
 		node := b.key2BranchNode[key]
 
 		var nodeKey string
